@@ -1,9 +1,54 @@
-import Olla.Driver.Util
+import Olla.Driver.Retry
+import Olla.Spec.C02
 
 namespace Olla.Driver.C02
-open Lean Olla.Driver
+open Lean Olla.Driver Olla.Driver.Retry Olla.Model.Retry Olla.Spec.C02
 
-/-- placeholder until the C02 driver is written -/
-def main : IO Unit := pure ()
+/-- An Olla-made error as the handlers produce it: 502 text/plain "Proxy error: …" / "Service unavailable: …". -/
+def isOllaError (status : Nat) (ct : String) (body : List UInt8) : Bool :=
+  status == 502 && ct.startsWith "text/plain" &&
+  (("Proxy error:".toUTF8.toList).isPrefixOf body || ("Service unavailable:".toUTF8.toList).isPrefixOf body)
+
+def handle (j : Json) : IO Unit := do
+  let case := jnat (jget j "case")
+  let sc := jget j "scenario"
+  let impl := jget j "impl"
+  if !(jisNull (jget impl "start_err")) && jstr (jget impl "start_err") != "" then
+    emit case false true "start-error" "" (jstr (jget impl "start_err")); return
+  let eps := parseEps sc
+  let cl := (jarr (jget impl "clients")).getD 0 Json.null
+  let cStatus := jnat (jget cl "status")
+  let cBody := unhex (jstr (jget cl "body_hex"))
+  let cHdrs := sortPairs (parsePairs (jget cl "headers"))
+  let cErr := jstr (jget cl "err")
+  let order := (jstrList (jget impl "order")).map (idxOf eps)
+  -- model
+  let (tr, res) := execute (selectPrio eps) (outcomeOf eps) (candidates eps)
+  let mOrder := (contactedList tr).filter (fun i => (eps.find? (·.idx == i)).map (·.kind) != some "refuse")
+  let mOffline := offlineList tr
+  let mView := clientStatus tr
+  let implOffline := (eps.filter (fun e => jstr (jget (jget impl "statuses") e.name) == "offline")).map (·.idx)
+  let viewAgree := match mView with
+    | none => isOllaError cStatus (jstr (jget cl "content_type")) cBody
+    | some (_, s, h) => cStatus == s && cHdrs == h && cBody.isPrefixOf (clientBody tr)
+        && (match res with | .served _ => cBody == clientBody tr && cErr == "" | _ => true)
+  let agree := order == mOrder && viewAgree && implOffline.all (mOffline.contains ·) && mOffline.all (implOffline.contains ·)
+  -- spec on the implementation's own observations
+  let said := eps.map (fun e => ({ name := e.idx, status := e.resp.status, headers := e.resp.headers, body := e.resp.body } : Said))
+  let ollaErr := isOllaError cStatus (jstr (jget cl "content_type")) cBody
+  let got : Option Got := if ollaErr || cErr == "eof-before-status" then none else some { status := cStatus, headers := cHdrs, body := cBody }
+  let spec := singleAttempt said order got
+  let kinds := String.intercalate "," (eps.map (·.kind))
+  let branch := match res with
+    | .served _ => if (selectedList tr).length > 1 then "served-after-failover" else "served-first"
+    | .failed _ => if mView.isSome then "failed-after-start" else "failed-before-start"
+    | .exhausted => "exhausted" | .selectFailed => "select-failed" | .noEndpoints => "no-endpoints"
+  let sig := if spec then "" else
+    if order.length > 1 && got.isSome then "response-mixes-attempts-or-redispatch-after-delivery" else "response-not-from-one-attempt"
+  emit case agree spec branch sig
+    (if spec && agree then "" else s!"kinds {kinds}: contacted {order} (model {mOrder}), client status {cStatus} err '{cErr}' body {cBody.length} bytes, offline {implOffline} (model {mOffline})")
+    (Json.mkObj [("order", toJson mOrder), ("offline", toJson mOffline), ("result", toJson (reprStr res))])
+
+def main : IO Unit := do forLines (← IO.getStdin) handle
 
 end Olla.Driver.C02
